@@ -2190,14 +2190,14 @@ def read_lines(path_or_source, *, include=False, include_dirs=None):
 
 # backslash escapes as a Python string literal has them; text that is not part of an escape
 # (non-ASCII characters, a backslash that starts no escape) stays exactly as written
-RE_ESCAPE = re.compile(r'\\(?:[abfnrtv\\\'"]|[0-7]{1,3}|x[0-9a-fA-F]{2}|u[0-9a-fA-F]{4}|U[0-9a-fA-F]{8}|N\{[^}]+\})')
+RE_ESCAPE = re.compile(r'\\(?:[abfnrtv\\\'"]|[0-7]{1,3}|x[0-9a-fA-F]{2}|u[0-9a-fA-F]{4}|U[0-9a-fA-F]{8}|N\{[A-Za-z0-9 -]+\})')
 
 
 def unescape(text):
     def replace(match):
         try:
             return match.group(0).encode('ascii').decode('unicode_escape')
-        except UnicodeDecodeError:
+        except UnicodeError:
             return match.group(0)
     return RE_ESCAPE.sub(replace, text)
 
